@@ -11,6 +11,7 @@ from . import traj
 from .common import Disagreement, drive, ROOT
 
 PROP_MODULE = 'PbVerif.Props.C01'
+GEN_TABLES = ('Registry',)
 RULE = ('cases = (method, dimension, data kind in {noise+peaks, large offset, tiny scale, negative, integer-valued, float32, int64, '
         'row/column/stack shapes, unsorted x}, size, output_dtype, parameter variation); each returning call is checked for baseline '
         'shape, dtype, order (against the sorted run), per-point parameter shapes, tol_history length/stop rule (trajectory replay '
